@@ -31,7 +31,7 @@ CORPUS = os.path.join(VERIF, "corpus", "C14")
 # region (alarms attributed, logged as a note) and kept out of probes() until the coordinator lists it
 CANDIDATES = (L.R_CSR8, L.R_LITTLE, L.R_AXIL_RD)
 
-QUICK = {"random_socs": 4, "mem": 500, "export": 400, "max_regs": 14, "sweeps": 5, "verdicts": 32, "irqs": 10}
+QUICK = {"random_socs": 4, "mem": 500, "export": 400, "max_regs": 14, "sweeps": 3, "verdicts": 32, "irqs": 10}
 THOROUGH = {"random_socs": 80, "mem": 6000, "export": 4000, "max_regs": None, "sweeps": 48, "verdicts": 300, "irqs": 150}
 
 
@@ -59,7 +59,8 @@ def grid(rng):
         dict(bus="wishbone", bus_dw=32, ic="shared", csr_dw=32, paging=0x800, ordering="big", csr_aw=14, csr_origin=0, big_prob=1.0),
         dict(bus="wishbone", bus_dw=32, ic="crossbar", csr_dw=32, paging=0x400, ordering="big", csr_aw=15, csr_origin=0xf0000000,
              mem_prob=1.0, shadow_prob=1.0),
-        dict(bus="wishbone", bus_dw=64, ic="shared", csr_dw=32, paging=0x1000, ordering="big", csr_aw=14, csr_origin=0x82000000),
+        dict(bus="wishbone", bus_dw=64, ic="shared", csr_dw=32, paging=0x1000, ordering="big", csr_aw=14, csr_origin=0x82000000,
+             mem_prob=1.0, wide_prob=1.0),
         dict(bus="wishbone", bus_dw=128, ic="shared", csr_dw=32, paging=0x2000, ordering="big", csr_aw=17, csr_origin=0x40000000),
         dict(bus="wishbone", bus_dw=64, ic="crossbar", csr_dw=32, paging=0x800, ordering="big", csr_aw=16, bus_aw=64,
              csr_origin=0x200000000),
@@ -79,7 +80,7 @@ def grid(rng):
         mr = row.pop("max_regs", 6)
         cfg = L.gen_cfg(rng, max_regs=mr, **row)
         cfg.pop("max_regs", None)
-        for k_ in ("big_prob", "mem_prob", "shadow_prob"):
+        for k_ in ("big_prob", "mem_prob", "shadow_prob", "wide_prob"):
             cfg.pop(k_, None)
         out.append(cfg)
     return out
@@ -215,7 +216,10 @@ def run_sweeps(ctx, plan, dis):
     rng = random.Random(ctx.rng.getrandbits(48))
     t0 = time.time()
     with _pool() as pool:
-        sweeps = pool.map(L.sweep_task, [(rng.getrandbits(32),) for _ in range(plan["sweeps"])], chunksize=1)
+        sjobs = [(rng.getrandbits(32),) for _ in range(plan["sweeps"])]
+        # always: a memory word 4x / 8x the CSR word on both CSR widths (sub-word order of the window)
+        sjobs += [(rng.getrandbits(32), 8, 4), (rng.getrandbits(32), 32, rng.choice((4, 8))), (rng.getrandbits(32), 8, 8)]
+        sweeps = pool.map(L.sweep_task, sjobs, chunksize=1)
         verdicts = pool.map(L.verdict_task, [(rng.getrandbits(32),) for _ in range(plan["verdicts"])], chunksize=4)
         irqs = pool.map(L.irq_task, [(rng.getrandbits(32),) for _ in range(plan["irqs"])], chunksize=2)
     for group in (sweeps, verdicts, irqs):
@@ -232,6 +236,11 @@ def run_sweeps(ctx, plan, dis):
     ctx.cov.add_cases("interrupt numbers: SoCCore + stub CPU, event fired -> exported <NAME>_INTERRUPT line rises (oracle only)",
                       len(irqs), len(irqs), False, mode="E2E")
     ans = ctx.lean.call_batch([c["line"] for c in sweeps])
+    for c in sweeps:
+        for a_ in c.get("alarms", []):
+            dis.append(Dis("oracle", c["input"], alarm=a_))
+        for wd in c.get("walked", []):
+            ctx.cov.count("sweep.mem_walk.%dbit" % wd[0])
     for c, a in zip(sweeps, ans):
         if a != c["real"]:
             ra, rr = set(a.split()), set(c["real"].split())
@@ -242,6 +251,8 @@ def run_sweeps(ctx, plan, dis):
     ans = ctx.lean.call_batch([c["line"] for c in verdicts])
     nrej = 0
     for c, a in zip(verdicts, ans):
+        for a_ in c.get("alarms", []):
+            dis.append(Dis("oracle", c["input"], alarm=a_))
         ctx.cov.count("verdict." + c["real"])
         nrej += c["real"] == "rejected"
         if a != c["real"]:
@@ -320,6 +331,9 @@ W_PAGE0 = dict(BASE, with_ctrl=False, periphs=[{"name": "p0", "loc": 3, "regs": 
 W_OVERFLOW = dict(BASE, paging=0x400, with_ctrl=False, periphs=[
     {"name": "p0", "regs": [{"kind": "storage", "name": "r%d" % i, "size": 32} for i in range(258)]},
     {"name": "p1", "regs": [{"kind": "storage", "name": "z", "size": 32}]}])
+W_OVERFLOW8 = dict(BASE, csr_dw=8, paging=0x400, with_ctrl=False, periphs=[
+    {"name": "p0", "regs": [{"kind": "status", "name": "big", "size": 257 * 8}]},
+    {"name": "p1", "regs": [{"kind": "storage", "name": "z", "size": 8}]}])
 W_NLOCS = dict(BASE, periphs=[{"name": "p0", "loc": 32, "regs": [{"kind": "storage", "name": "a", "size": 8}]}])
 
 
@@ -351,7 +365,11 @@ def probes(ctx):
     rec, al = _alarms(W_PAGE0)
     out.append(("C14-header-base-page0-empty", bool(al), al[0][:300] if al else "csr.h agrees with JSON and the hardware"))
     b, verdict = L.safe_build(W_OVERFLOW)
-    out.append(("C14-bank-exceeds-page", verdict != "rejected", "258-word bank in a 256-word page: build verdict " + verdict))
+    b8, verdict8 = L.safe_build(W_OVERFLOW8)
+    out.append(("C14-bank-exceeds-page", verdict != "rejected" or verdict8 != "rejected",
+                "258-word bank in a 256-word page: build verdict %s with a 32-bit CSR bus (SoCMini, paging 0x400, peripheral "
+                "with 258 32-bit CSRStorage), %s with an 8-bit CSR bus (SoCMini(csr_data_width=8, csr_paging=0x400), peripheral "
+                "with one 2056-bit CSRStatus = 257 simple CSRs)" % (verdict, verdict8)))
     b, verdict = L.safe_build(W_NLOCS)
     out.append(("C14-csr-page-eq-nlocs", verdict != "rejected", "bank pinned at page n_locs=32: build verdict " + verdict))
     rec, al = _alarms(W_AXI_NARROW)
@@ -494,11 +512,13 @@ def replay(ctx, payload):
         return 1 if bad else 0
     if inp.get("kind") == "verdict":
         b, verdict = L.safe_build(inp["cfg"])
-        print("build verdict:", verdict)
-        return 0
+        W_ = inp["cfg"]["paging"] // 4
+        over = [p["name"] for p in inp["cfg"]["periphs"] if sum(L.nwords(inp["cfg"]["csr_dw"], r["size"]) for r in p["regs"]) > W_]
+        print("build verdict:", verdict, "banks larger than their page:", over)
+        return 1 if verdict == "ok" and over else 0
     if inp.get("kind") == "sweep":
-        c = L.sweep_case((inp["seed"],))
-        print(c["line"], "->", c["real"][:400])
-        return 0
+        c = L.sweep_task(tuple([inp["seed"]] + list(inp.get("forced") or [])))
+        print(c.get("line"), "->", str(c.get("real"))[:300], "alarms:", c.get("alarms"), c.get("crash", ""))
+        return 1 if c.get("alarms") or c.get("crash") else 0
     print("nothing to replay in", list(inp))
     return 2
